@@ -96,6 +96,14 @@ def make_basis(spec, d):
     raise ValueError(kind)
 
 
+def signed_shuffled_basis(rng, d, traceless=True):
+    """complete orthonormal Hermitian basis with random signs of the elements (the identity element of
+    a traceless basis may be -1/sqrt(d)) in random order (the identity need not be first)"""
+    arr = rotated_basis(rng, d, traceless)
+    arr = arr*rng.choice([-1.0, 1.0], len(arr))[:, None, None]
+    return arr[rng.permutation(len(arr))]
+
+
 def rotated_basis(rng, d, traceless):
     """complete orthonormal Hermitian basis = real orthogonal mixture of GGM"""
     g = np.array(ff.Basis.ggm(d))
@@ -176,6 +184,11 @@ def rand_desc(rng, d=None, n_dt=None, n_c=None, n_n=None, basis=None, features=N
         n_coeffs *= rng.choice([-1.0, 1.0], (n_n, n_dt))
     if 'const_sens' in features:
         n_coeffs = np.repeat(n_coeffs[:, :1], n_dt, axis=1)
+    if 'cancel_sens' in features and n_n >= 2:
+        # differential noise: on some segments the sensitivities of the operators cancel exactly
+        for g in range(n_dt):
+            if rng.random() < 0.6:
+                n_coeffs[-1, g] = -np.sum(n_coeffs[:-1, g])
     basis = basis if basis is not None else rand_basis_spec(rng, d)
     return dict(d=d, c_opers=c_opers, c_ids=[f'C{i}' for i in range(n_c)], c_coeffs=c_coeffs,
                 n_opers=n_opers, n_ids=[f'N{i}' for i in range(n_n)], n_coeffs=n_coeffs, dt=dt,
@@ -183,7 +196,7 @@ def rand_desc(rng, d=None, n_dt=None, n_c=None, n_n=None, basis=None, features=N
 
 
 FEATURES = ['idle', 'zero_dt', 'repeat', 'big_angle', 'wide_dt', 'degenerate', 'commuting',
-            'zero_nop', 'nontraceless_nop', 'neg_sens', 'structured']
+            'zero_nop', 'nontraceless_nop', 'neg_sens', 'structured', 'cancel_sens']
 
 
 def rand_features(rng, p=0.25, pool=None):
